@@ -120,7 +120,8 @@ fn clock_fn(clock: &Arc<AtomicU64>) -> Arc<dyn Fn() -> u64 + Send + Sync> {
 
 impl Template {
     pub fn build(base: PathBuf) -> Result<Template, String> {
-        let _ = std::fs::remove_dir_all(&base);
+        // `base` is the bottom of the scratch moat (built and handed to the unprivileged
+        // identity by the caller)
         std::fs::create_dir_all(&base).map_err(|e| format!("create {}: {e}", base.display()))?;
         let pairing_file = base.join("pairing-template.json");
         let clock = Arc::new(AtomicU64::new(1_000));
@@ -660,6 +661,11 @@ impl Fixture {
             segment(&res, "stop: ", ",").map(str::to_string).unwrap_or_else(|| "?layout".into()),
         ));
         parts.push(("project_files", tree_digest(&self.project)));
+        // moat oracle: nothing the check did not create between the scratch top and this fixture
+        parts.push((
+            "outside_project",
+            super::moat().map(|m| m.foreign(Some(&self.dir))).unwrap_or_default(),
+        ));
         parts.push((
             "hmi_descriptor",
             st.hmi_descriptor
